@@ -56,6 +56,18 @@ func init() {
 		},
 	})
 	register(&Property{
+		ID: "C02",
+		Explanation: "Decides the structural conditions that make reported variables the bindings of the successful path: (R1) snapshot isolation - every reference-typed component of the VM state that is mutated in place anywhere in package engine (computed: methods that write through their receiver, and the fields they are invoked on) is freshly allocated, deeply, in the value returned by Copy; CHECKPOINT pushes such a copy; (R2) STARTVAR records len(currentMatch), ENDVAR binds currentMatch[startOffset:] on every returning path, MATCHVAR matches the bound text unchanged; (R3) every instruction handler neither stores through nor calls a mutating method on its incoming state and returns its Copy; (R4) every attempt starts from a freshly created state. " +
+			"Scoped exclusions: the saved snapshots reachable only through `backtrack` (LIFO argument, stated) and the shared reader. Does NOT decide which binding is the most recent one when a name is bound repeatedly, nor named-loop nesting.",
+		Assumptions: commonAssumptions,
+		Rules: []RuleFn{
+			{Name: "C02.R1", Run: func(c *Ctx) { ruleSnapshotIsolation(c, "C02.R1") }},
+			{Name: "C02.R2", Run: func(c *Ctx) { ruleBindingProvenance(c, "C02.R2") }},
+			{Name: "C02.R3", Run: func(c *Ctx) { ruleHandlersOwnCopy(c, "C02.R3") }},
+			{Name: "C02.R4", Run: func(c *Ctx) { ruleAttemptFresh(c, "C02.R4") }},
+		},
+	})
+	register(&Property{
 		ID: "C04",
 		Explanation: "Decides that the amount clause can only select a window of one fixed match sequence: (R1) non-interference - in the scan loop of findMatches neither the next scan position/line/column/match counter, nor the arguments of CreateState and MakeMatch, are data-dependent on skip/take/last or control-dependent on a branch whose condition depends on them (loop-exit branches exempt: they truncate); (R2) a match is pushed exactly under success && non-empty && matchNumber >= skip, numbered matchNumber+1, the loop bound is matchNumber < skip+take, Limit(last) follows every push when last != 0 and drops from the front; (R3) the five clause forms of parse_amount return the documented (all, skip, take, last) tuples; (R4) the four values keep their identity from parser to generator to findMatches for both find and replace. " +
 			"Does NOT decide the queue's arithmetic beyond that Limit pops from the front.",
